@@ -230,7 +230,36 @@ func runC14(c *Ctx) {
 		if ok && !(handedOut(isRemover) && handedOut(isUnsub)) {
 			ok = false
 		}
+		// (5) the tracking set is per source: a set that is applied inside a loop over the sources must be
+		// created inside that loop (or in a helper called from it). One set shared by all sources drops
+		// the second occurrence of an element, so the occurrence count is one although two sources hold it.
+		shared := ""
+		for _, b := range bodies {
+			ast.Inspect(b, func(n ast.Node) bool {
+				rs, ok := n.(*ast.RangeStmt)
+				if !ok {
+					return true
+				}
+				ast.Inspect(rs.Body, func(m ast.Node) bool {
+					se, ok := m.(*ast.SelectorExpr)
+					if !ok || se.Sel.Name != "Apply" {
+						return true
+					}
+					o := objOfIdent(info, se.X)
+					if o == nil || !perSource[o] {
+						return true
+					}
+					if o.Pos() < rs.Body.Pos() || o.Pos() > rs.Body.End() {
+						shared = fmt.Sprintf("%s is created at %s, outside the loop over the sources at %s that applies every source's updates to it", o.Name(), p.posStr(o.Pos()), p.posStr(rs.Pos()))
+					}
+					return true
+				})
+				return true
+			})
+		}
 		switch {
+		case shared != "":
+			r.Fail("derivedset/unsubscribe-removes", pkg+".derivedSet.InheritFrom", p.posStr(fd.Pos()), "one tracking set is shared by all sources ("+shared+"): an element held by two sources is counted once, and disappears from the derived set when one of them drops it")
 		case len(direct) > 0:
 			r.Fail("derivedset/unsubscribe-removes", pkg+".derivedSet.InheritFrom", p.posStr(fd.Pos()), "the derived set is changed directly with a source's elements ("+direct[0]+"): this bypasses the per-element occurrence counts, so elements still provided by another source disappear and later updates are swallowed")
 		case !ok:
